@@ -94,6 +94,15 @@ def numeric_value(r, kind):
         return r.randint(-3, 3)
     if kind == 'float':
         return r.choice([r.uniform(-1000, 1000), r.uniform(-1e-5, 1e-5), r.uniform(-1, 1) * 10 ** r.randint(-300, 300), float(r.randint(-5, 5)), 0.5, -0.5])
+    if kind == 'ulp':
+        # neighbouring doubles (they differ in the last bit of the mantissa only), of both signs; integers up to 2^53 are doubles too
+        import math
+        if r.random() < 0.4:
+            k = r.randrange(2 ** 52, 2 ** 53 - 2)
+            return r.choice([1, -1]) * (k + r.choice([0, 1, 2]))
+        base = r.choice([0.3, 0.1 + 0.2, 1.0, 1e-300, 123456.789, 2.0 ** -1022, 1e300])
+        x = r.choice([base, math.nextafter(base, math.inf), math.nextafter(base, -math.inf)])
+        return r.choice([1, -1]) * x
     if kind == 'decimal':
         return Decimal('%d.%0*d' % (r.randint(-10 ** 4, 10 ** 4), r.randint(1, 6), r.randint(0, 999)))
     raise ValueError(kind)
@@ -118,7 +127,7 @@ def run_numeric(item):
     mode = item['mode']
     rows = []
     if mode == 'numeric':
-        kinds = r.choice([['int'], ['float'], ['decimal'], ['int', 'float', 'decimal'], ['smallint'], ['smallint', 'float']])
+        kinds = r.choice([['int'], ['float'], ['decimal'], ['int', 'float', 'decimal'], ['smallint'], ['smallint', 'float'], ['ulp'], ['ulp']])
         for i in range(n):
             v = numeric_value(r, r.choice(kinds))
             if isinstance(v, float) and v == 0.0 and r.random() < 0.5:
